@@ -121,7 +121,33 @@ func c11Case(c *Ctx, tr interface{}, tag string) {
 
 func init() {
 	campaigns["C11"] = func(c *Ctx) {
-		c.Rule = "values of the 13 pointer types offering Clean() and item lists of them, generated type-directed from the struct definitions with bto/bcc planted with probability 0.55 on each generated object at every depth (so that objects without private recipients embed objects with them) (<=3 quick, <=4 thorough), embedded objects by pointer and by value, links, lists with nil members, on and off the walked properties; first a covering set (each type x each walked property holding an object with bto+bcc, each shape: single pointer, single value, list), then random. Distinct by request hash; every case is non-trivial (it carries private recipients)."
+		c.Rule = "values of the 13 pointer types offering Clean() and item lists of them, generated type-directed from the struct definitions with bto/bcc planted with probability 0.55 on each generated object at every depth (so that objects without private recipients embed objects with them) (<=3 quick, <=4 thorough), embedded objects by pointer and by value, links, lists with nil members, on and off the walked properties; first chains 40 and 70 levels deep along a walked property (single position, activity object, list) with private recipients on every level, then a covering set (each type x each walked property holding an object with bto+bcc, each shape: single pointer, single value, list), then random. Distinct by request hash; every case is non-trivial (it carries private recipients)."
+		// depth: chains of 40 and 70 embedded objects along one walked property (an attachment of an attachment
+		// of …, an activity's object of an object of …, lists counting as a level), private recipients on every
+		// level — "recursively, to any depth"; several of them first, so that whatever a deep value leaves behind
+		// is met by every later case
+		gd := &GenCfg{}
+		for _, depth := range []int{40, 70, 40, 40} {
+			for _, via := range []string{"Attachment", "Object", "Tag"} {
+				typ := "Object"
+				if via == "Object" {
+					typ = "Activity"
+				}
+				var node interface{} = T{"t": "Object", "ptr": true, "f": T{"ID": T{"s": gd.nextID("bottom")}, "Type": T{"s": "Note"},
+					"Bto": T{"list": []interface{}{T{"iri": gd.nextID("b")}}}, "BCC": T{"list": []interface{}{T{"iri": gd.nextID("c")}}}}}
+				for k := 0; k < depth; k++ {
+					f := T{"ID": T{"s": gd.nextID("level")}, "Type": T{"s": vocab[typ][0]},
+						"Bto": T{"list": []interface{}{T{"iri": gd.nextID("b")}}}, "BCC": T{"list": []interface{}{T{"iri": gd.nextID("c")}}}}
+					if via == "Tag" {
+						f[via] = T{"list": []interface{}{T{"iri": gd.nextID("i")}, node}}
+					} else {
+						f[via] = node
+					}
+					node = T{"t": typ, "ptr": true, "f": f}
+				}
+				c11Case(c, node, "deep-chain/"+via)
+			}
+		}
 		// covering set
 		priv := func(g *GenCfg, ptr bool) T {
 			return T{"t": "Object", "ptr": ptr, "f": T{"ID": T{"s": g.nextID("priv")}, "Type": T{"s": "Note"},
